@@ -12,6 +12,10 @@ vectors additionally go through Interpreter.execute and its text parser):
             INT(BYTES n) == n and NAT(BYTES n) == n
   raises    exactly when the reference fails: mutez result >= 2^63 or negative (ADD/SUB/MUL), shift > 256
   None      exactly where Michelson says: EDIV by zero, SUB_MUTEZ with a negative difference, ISNAT of a negative
+Operand contexts (boundary values of every dispatch pair): a sentinel below the operands stays untouched; both operands copies
+of one value (DUP); first operand taken out of a %field :type annotated pair component (annotated run-time class).
+  raises    on every operand type combination over {int nat mutez timestamp bool bytes string} that the reference does NOT
+            type (no dispatch row beyond the reference table); see CANDIDATE_DEFECT in bounded/C16_cases.py
 """
 from vlib.runner import Check
 
@@ -50,7 +54,9 @@ def run_R(ck: Check):
     ck.rule('R(C16): every dispatch pair of the reference x operand values {0, +-1, +-(2^(8k)-1), +-2^(8k), +-2^(8k-1) and neighbours for '
             'k=1..9, 2^63 boundaries, 2^255..2^257} (quick: essential boundaries + a spread subset; thorough: all), mutez below 2^63, '
             'bytes incl. empty / leading 00 / leading ff / 32-33 bytes, shifts {0,1,7,8,9,63,64,255,256,257,258,1000,2^64}; '
-            'class = (instruction, operand types, value region, clause)')
+            'the same on boundary values in three operand contexts (sentinel below / DUP / annotated pair component); every '
+            'operand type combination outside the reference table must be refused; '
+            'class = (instruction, operand types, value region + context, clause)')
     chunks = K.enumerate_cases(ck.tier, ck.seed)
     ck.bound('C16_R_cases', sum(len(c) for c in chunks))
     ck.bound('C16_R_dispatch_pairs', sum(len(v) for v in arith.ALLOWED.values()))
@@ -61,7 +67,7 @@ def run_R(ck: Check):
         if t == 'bytes':
             b = K.dec(t, v)
             return 'empty' if not b else f'len{min(len(b), 3)}{"+" if len(b) > 3 else ""}:{"hi" if b[0] & 0x80 else "lo"}'
-        if t == 'bool':
+        if t in ('bool', 'string'):
             return str(v)
         a = abs(v)
         return ('-' if v < 0 else '') + ('0' if a == 0 else 'b%d' % min((a.bit_length() + 7) // 8, 34) + ('^' if a & (a - 1) == 0 else ''))
@@ -69,7 +75,7 @@ def run_R(ck: Check):
     for chunk_res in results:
         for case, rs in chunk_res:
             ts = ':'.join(t for t, _ in case['ops'])
-            reg = ','.join(region(t, v) for t, v in case['ops'])
+            reg = ','.join(region(t, v) for t, v in case['ops']) + (f";{case['ctx']}" if case.get('ctx') else '') + (';ill-typed' if case.get('ill') else '')
             for r in rs:
                 clause = r['oid'].split('::')[1].split('.')[0]
                 sample = dict(case=case, clause=r['oid'], ok=r['ok']) if (case['prim'] in ('EDIV', 'BYTES') and reg in ('-b1,b1', 'b2^', '-b2')) else None
